@@ -19,6 +19,8 @@ def Op.thread : Op → ThreadId
   | .exit t => t
   | .read t => t
 
+deriving instance DecidableEq for Op
+
 end J2M.Runtime
 
 namespace J2M.RuntimeOps
